@@ -28,6 +28,9 @@ pub struct Case {
     pub evict_at: Vec<u64>,
     /// File::set_options before op k: switches between strict and tolerant parsing
     pub switch_options: Vec<bool>,
+    /// what the switch before op k changes: 0 (or absent) = strict <-> tolerant as a whole; 1 = only
+    /// allow_missing_endobj; 2 = only allow_error_in_option; 3 = only allow_invalid_ops
+    pub switch_kind: Vec<u8>,
 }
 
 impl Case {
@@ -43,12 +46,27 @@ impl Case {
             "evict_before": self.evict_before,
             "evict_at": self.evict_at,
             "switch_options": self.switch_options,
+            "switch_kind": self.switch_kind,
         })
+    }
+    /// parse options (bits as in `ops::opts_from_bits`) in force when op k runs
+    pub fn opts_at(&self, k: usize) -> u8 {
+        let mut bits = if self.tolerant { ops::OPTS_TOLERANT } else { ops::OPTS_STRICT };
+        for j in 0..=k {
+            if self.switch_options.get(j).cloned().unwrap_or(false) {
+                bits = match self.switch_kind.get(j).cloned().unwrap_or(0) {
+                    1 => bits ^ 8,
+                    2 => bits ^ 1,
+                    3 => bits ^ 4,
+                    _ => if bits == ops::OPTS_TOLERANT { ops::OPTS_STRICT } else { ops::OPTS_TOLERANT },
+                };
+            }
+        }
+        bits
     }
     /// parse mode in force when op k runs
     pub fn tolerant_at(&self, k: usize) -> bool {
-        let flips = self.switch_options.iter().take(k + 1).filter(|&&b| b).count();
-        self.tolerant ^ (flips % 2 == 1)
+        self.opts_at(k) & 1 != 0
     }
     pub fn from_json(j: &J, repo: &str) -> Option<Case> {
         let bools = |k: &str| -> Option<Vec<bool>> { Some(j.get(k)?.as_array()?.iter().map(|x| x.as_bool().unwrap_or(false)).collect()) };
@@ -62,6 +80,7 @@ impl Case {
             evict_before: bools("evict_before")?,
             evict_at: j.get("evict_at")?.as_array()?.iter().filter_map(|x| x.as_u64()).collect(),
             switch_options: bools("switch_options").unwrap_or_default(),
+            switch_kind: j.get("switch_kind").and_then(|x| x.as_array()).map(|a| a.iter().map(|x| x.as_u64().unwrap_or(0) as u8).collect()).unwrap_or_default(),
         })
     }
     fn summary(&self) -> J {
@@ -93,7 +112,7 @@ pub fn run_case(case: &Case) -> Outcome {
         let mut k = 0;
         while k < case.ops.len() {
             if case.switch_options.get(k).cloned().unwrap_or(false) {
-                file.set_options(if case.tolerant_at(k) { pdf::object::ParseOptions::tolerant() } else { pdf::object::ParseOptions::strict() });
+                file.set_options(ops::opts_from_bits(case.opts_at(k)));
             }
             let mut resolver = file.resolver();
             loop {
@@ -127,10 +146,67 @@ struct EnumItem {
     kinds: Vec<Op>,
 }
 
+/// A generated rich document in which every second font, image, form, annotation, resource
+/// dictionary and non-root page-tree node is not closed by `endobj` (the keyword is blanked, all
+/// offsets stay). The inventory is that of the intact document: in strict mode those objects do
+/// not read at all.
+fn sloppy_doc(pool: &mut Pool, k: u64) -> Option<Arc<Doc>> {
+    let base = pool.generated(&Family::Rich, 200 + k);
+    if !base.inv.loadable {
+        return None;
+    }
+    let mut bytes: Vec<u8> = (*base.bytes).clone();
+    let find = |hay: &[u8], from: usize, needle: &[u8]| hay.get(from..).and_then(|h| h.windows(needle.len()).position(|w| w == needle)).map(|p| p + from);
+    let mut blanked = 0;
+    let mut nth = 0;
+    for (id, kind) in &base.inv.objects {
+        if !matches!(kind, ObjKind::Font | ObjKind::Image | ObjKind::Form | ObjKind::Annot | ObjKind::Resources | ObjKind::Pages) {
+            continue;
+        }
+        let header = format!("\n{} 0 obj\n", id);
+        let start = match find(&bytes, 0, header.as_bytes()) {
+            Some(p) => p,
+            None => continue, // a member of an object stream
+        };
+        let end = match find(&bytes, start + header.len(), b"\nendobj\n") {
+            Some(p) => p,
+            None => continue,
+        };
+        let text = &bytes[start..end];
+        if *kind == ObjKind::Pages && find(text, 0, b"/Parent").is_none() {
+            continue; // the root of the page tree is read while the document opens
+        }
+        nth += 1;
+        if nth % 2 == 0 {
+            continue;
+        }
+        for b in &mut bytes[end + 1..end + 7] {
+            *b = b' ';
+        }
+        blanked += 1;
+    }
+    if blanked == 0 {
+        return None;
+    }
+    let mut d = (*base).clone();
+    d.label = format!("sloppy:{}", k);
+    d.family = "sloppy".into();
+    d.bytes = Arc::new(bytes);
+    // must still open in strict mode (nothing read at open time was touched)
+    let ctl = SimCtl::new(false, false);
+    if ops::open(&d.bytes, &ctl, false, &d.password).is_err() {
+        return None;
+    }
+    Some(Arc::new(d))
+}
+
 pub struct C12 {
     pool: Option<Pool>,
     alone: Alone,
     docs: Vec<Arc<Doc>>,
+    /// rich documents in which some objects are not closed by `endobj` (read only with
+    /// allow_missing_endobj); used by the partial-option-switch batch only
+    sloppy: Vec<Arc<Doc>>,
     items: Vec<EnumItem>,
     /// prefix sums of cases per item
     starts: Vec<u64>,
@@ -142,7 +218,7 @@ const MODES: [(bool, bool); 3] = [(true, true), (true, false), (false, true)];
 
 impl C12 {
     pub fn new() -> C12 {
-        C12 { pool: None, alone: Alone::new(), docs: vec![], items: vec![], starts: vec![], enum_total: 0, prepared_for: None }
+        C12 { pool: None, alone: Alone::new(), docs: vec![], sloppy: vec![], items: vec![], starts: vec![], enum_total: 0, prepared_for: None }
     }
 
     fn arity(tier: Tier) -> u32 {
@@ -211,6 +287,8 @@ impl C12 {
                 }
             }
         }
+        // kept apart from `docs` so that the cases drawn for them stay what they were
+        self.sloppy = (0..4).filter_map(|k| sloppy_doc(&mut pool, k)).collect();
         let per_doc_objs = if tier == Tier::Quick { 24 } else { 160 };
         let mut items = vec![];
         for (di, d) in docs.iter().enumerate() {
@@ -268,10 +346,41 @@ impl C12 {
             r /= n;
         }
         let len = ops_v.len();
-        Case { doc: self.docs[it.doc].clone(), tolerant, obj_cache: mode.0, stm_cache: mode.1, ops: ops_v, new_resolver: vec![false; len], evict_before: vec![false; len], evict_at: vec![], switch_options: vec![false; len] }
+        Case { doc: self.docs[it.doc].clone(), tolerant, obj_cache: mode.0, stm_cache: mode.1, ops: ops_v, new_resolver: vec![false; len], evict_before: vec![false; len], evict_at: vec![], switch_options: vec![false; len], switch_kind: vec![] }
+    }
+
+    /// One run in sixteen: a document with unclosed objects, a short history of loads of one or two
+    /// of its objects, and `File::set_options` calls that change ONE option between them.
+    fn sloppy_case(&mut self, ctx: &WorkerCtx, i: u64) -> Case {
+        let mut rng = Rng::new(run_seed(ctx.verif_seed, "C12/sloppy", i));
+        let doc = self.sloppy[rng.usize(self.sloppy.len())].clone();
+        let objs: Vec<(u64, ObjKind)> = doc.inv.objects.iter().cloned().filter(|(_, k)| *k != ObjKind::Unreadable).collect();
+        let focus: Vec<(u64, ObjKind)> = (0..1 + rng.usize(2)).map(|_| *rng.pick(&objs)).collect();
+        let n_pages = doc.inv.n_pages.max(1) as u64;
+        let len = 2 + rng.usize(6);
+        let mut ops_v = vec![];
+        for _ in 0..len {
+            ops_v.push(match rng.below(8) {
+                0 => Op::PageWalk(rng.below(n_pages) as u32),
+                1 => Op::LazyFont(rng.below(n_pages) as u32),
+                _ => {
+                    let (id, kind) = *rng.pick(&focus);
+                    let r = ops::right_ops(id, kind);
+                    rng.pick(&r).clone()
+                }
+            });
+        }
+        let mode = *rng.pick(&[(true, false), (false, true), (true, true), (true, true)]);
+        let switch_options: Vec<bool> = (0..len).map(|k| k > 0 && rng.chance(1, 2)).collect();
+        let switch_kind: Vec<u8> = (0..len).map(|_| *rng.pick(&[1u8, 1, 1, 2, 3, 0])).collect();
+        let new_resolver = (0..len).map(|_| rng.chance(1, 3)).collect();
+        Case { doc, tolerant: rng.coin(), obj_cache: mode.0, stm_cache: mode.1, ops: ops_v, new_resolver, evict_before: vec![false; len], evict_at: vec![], switch_options, switch_kind }
     }
 
     fn random_case(&mut self, ctx: &WorkerCtx, i: u64) -> Case {
+        if i % 16 == 6 && !self.sloppy.is_empty() {
+            return self.sloppy_case(ctx, i);
+        }
         let mut rng = Rng::new(run_seed(ctx.verif_seed, "C12", i));
         let doc = self.docs[rng.usize(self.docs.len())].clone();
         let objs: Vec<(u64, ObjKind)> = doc.inv.objects.iter().cloned().filter(|(_, k)| *k != ObjKind::Unreadable).collect();
@@ -320,13 +429,13 @@ impl C12 {
         let new_resolver = (0..len).map(|_| rng.chance(1, 3)).collect();
         let switching = rng.chance(1, 5);
         let switch_options = (0..len).map(|k| switching && k > 0 && rng.chance(1, 4)).collect();
-        Case { doc, tolerant: rng.chance(1, 3), obj_cache: mode.0, stm_cache: mode.1, ops: ops_v, new_resolver, evict_before, evict_at, switch_options }
+        Case { doc, tolerant: rng.chance(1, 3), obj_cache: mode.0, stm_cache: mode.1, ops: ops_v, new_resolver, evict_before, evict_at, switch_options, switch_kind: vec![] }
     }
 
     /// first call whose cached answer differs from its alone answer
     fn first_mismatch(&mut self, case: &Case, out: &Outcome) -> Option<(usize, Answer, Answer)> {
         for (k, a) in out.answers.iter().enumerate() {
-            let alone = self.alone.answer(&case.doc, case.tolerant_at(k), &case.ops[k]);
+            let alone = self.alone.answer_opts(&case.doc, case.opts_at(k), &case.ops[k]);
             if !alone.same(a) {
                 return Some((k, alone, a.clone()));
             }
@@ -409,6 +518,7 @@ impl C12 {
                     best.new_resolver.truncate(k + 1);
                     best.evict_before.truncate(k + 1);
                     best.switch_options.truncate(k + 1);
+                    best.switch_kind.truncate(k + 1);
                     progress = true;
                 }
             }
@@ -435,7 +545,12 @@ impl C12 {
                 c.evict_before.remove(k);
                 // removing a call must not change the parse mode of the calls after it
                 let sw = c.switch_options.remove(k);
-                if sw && k < c.switch_options.len() {
+                let partial = c.switch_kind.iter().any(|&x| x != 0);
+                if k < c.switch_kind.len() {
+                    c.switch_kind.remove(k);
+                }
+                // (partial switches are not merged: the call goes together with its switch)
+                if sw && k < c.switch_options.len() && !partial {
                     c.switch_options[k] ^= true;
                 }
                 cands.push(c);
@@ -514,7 +629,7 @@ impl Check for C12 {
         h.u64(case.tolerant as u64 | (case.obj_cache as u64) << 1 | (case.stm_cache as u64) << 2);
         for (k, op) in case.ops.iter().enumerate() {
             h.str(&format!("{:?}", op));
-            h.u64(case.new_resolver[k] as u64 | (case.evict_before[k] as u64) << 1 | (case.switch_options.get(k).cloned().unwrap_or(false) as u64) << 2);
+            h.u64(case.new_resolver[k] as u64 | (case.evict_before[k] as u64) << 1 | (case.switch_options.get(k).cloned().unwrap_or(false) as u64) << 2 | (case.switch_kind.get(k).cloned().unwrap_or(0) as u64) << 3);
         }
         for e in &case.evict_at {
             h.u64(*e);
